@@ -12,7 +12,7 @@ def run(out, tier, seed):
         out.judge({"clause": "LawModel", "why": "TLC"}, {"tlc": r.out[-2500:]})
     cases = PC.run_cases(tier, seed, work)
     # law pairs, re-spacings, and every grammar-derived selector that compiles (focus attributes)
-    cases = [c for c in cases if c["kind"] in ("law", "ws") or (c["kind"] == "parse" and c["src"] == "grammar" and c["out"]["k"] in ("E", "C"))]
+    cases = [c for c in cases if c["kind"] in ("law", "ws", "distinct") or (c["kind"] == "parse" and c["src"] == "grammar" and c["out"]["k"] in ("E", "C"))]
     fails = PC.validate(out, cases, work)
     by = {c["id"]: c for c in cases}
     for cid, clause, detail in fails:
